@@ -25,6 +25,11 @@ package netpoll
 //            the package-level netpoll.Initialize() with the first Picks after a SetNumLoops; for its duration the global
 //            `pollmanager` IS the scenario's manager (Initialize has no other way in).
 //
+// `pend I,J,.. <pick|reset|close>` (sequential scenarios): the op runs while the loops of the pollers in slots I,J,.. are parked
+// inside a callback (a pipe registered with them) and have an unconsumed Trigger(): the Close() that a shrinking Run / Reset /
+// manager.Close writes then ADDS to the pending wake-up on the eventfd counter.  The loops are let go before the reply is taken;
+// the model and the spec oracle read the line as the inner op.
+//
 // After every phase each known poller is probed: Trigger() succeeds and a pipe registered with
 // Control(PollReadable) gets its OnRead callback from the poller's loop.
 
@@ -135,6 +140,82 @@ type vmgrWorld struct {
 	waited map[int]bool
 	base   int // epoll descriptors that existed before the scenario
 	dead   bool
+	holds  []*vmgrHold // loops parked in a callback by a `pend` op; released before the next look at the descriptors
+}
+
+// vmgrHold parks a poller's loop inside the OnRead callback of a pipe registered with it (what a slow user callback does
+// to the loop), so that whatever is written to the poller's eventfd meanwhile - a Trigger(), then the Close() of a
+// shrinking Run / Reset / manager.Close - is still unread when the loop comes back: the eventfd is a counter, one read
+// returns the SUM of the writes.  The callback removes the pipe from the epoll set itself before it returns (the loop's
+// own goroutine: its epoll descriptor is certainly still open there).
+type vmgrHold struct {
+	fds     [2]int
+	op      *FDOperator
+	entered chan struct{}
+	release chan struct{}
+	done    chan struct{}
+}
+
+func vmgrHoldLoop(p *defaultPoll) *vmgrHold {
+	if p == nil || p.wop == nil || !vmgrIsEpollFD(p.fd) || !vmgrIsEventFD(p.wop.FD) {
+		return nil
+	}
+	h := &vmgrHold{entered: make(chan struct{}), release: make(chan struct{}), done: make(chan struct{})}
+	if err := syscall.Pipe2(h.fds[:], syscall.O_NONBLOCK|syscall.O_CLOEXEC); err != nil {
+		return nil
+	}
+	first := true
+	h.op = &FDOperator{FD: h.fds[0], poll: p}
+	h.op.OnRead = func(Poll) error {
+		var b [8]byte
+		syscall.Read(h.fds[0], b[:])
+		if !first {
+			return nil
+		}
+		first = false
+		close(h.entered)
+		<-h.release
+		var evt epollevent
+		EpollCtl(p.fd, syscall.EPOLL_CTL_DEL, h.fds[0], &evt)
+		close(h.done)
+		return nil
+	}
+	if err := p.Control(h.op, PollReadable); err != nil {
+		syscall.Close(h.fds[0])
+		syscall.Close(h.fds[1])
+		return nil
+	}
+	syscall.Write(h.fds[1], []byte{1})
+	select {
+	case <-h.entered:
+		return h
+	case <-time.After(vmgrPatience):
+		vmgrExpired()
+		// the loop never came: leave the callback armed-but-harmless (it returns at once when released)
+		close(h.release)
+		return nil
+	}
+}
+
+func (h *vmgrHold) let() {
+	close(h.release)
+	select {
+	case <-h.done:
+	case <-time.After(vmgrPatience):
+		vmgrExpired()
+	}
+	syscall.Close(h.fds[0])
+	syscall.Close(h.fds[1])
+	runtime.KeepAlive(h.op)
+}
+
+// releaseHolds lets every parked loop go on (called before anything looks at descriptors / probes loops)
+func (w *vmgrWorld) releaseHolds() {
+	hs := w.holds
+	w.holds = nil
+	for _, h := range hs {
+		h.let()
+	}
 }
 
 func vmgrIsEpollFD(fd int) bool {
@@ -201,6 +282,7 @@ func (w *vmgrWorld) ids(ps []Poll) string {
 // is given up to 2 s (once) for its loop to close its descriptors; newer pollers reusing the same
 // descriptor number prove the older one closed.
 func (w *vmgrWorld) refresh() {
+	w.releaseHolds()
 	if w.m == nil {
 		return
 	}
@@ -400,6 +482,7 @@ func (w *vmgrWorld) retStr(p Poll) string {
 
 func (w *vmgrWorld) cleanup() {
 	VmgrHook = nil
+	w.releaseHolds()
 	if w.m != nil {
 		// learn every poller still in the slice (a call that panicked left no dump behind), so that
 		// the wait below covers all of them
@@ -457,6 +540,27 @@ func (w *vmgrWorld) exec(toks []string, rng *rand.Rand) (opOut string, rep strin
 		}
 	}()
 	switch toks[0] {
+	case "pend":
+		// pend I,J,.. <op ...> : the loops of the pollers in slots I,J,.. of the slice are busy in a callback and have an
+		// unconsumed Trigger() when <op> (pick / reset / close) runs; they are let go before the op's reply is taken
+		// (first refresh).  The model executes <op> alone: a pending wake-up must not change what the pool does.
+		if len(toks) < 3 || w.m == nil {
+			return op, "badop"
+		}
+		for _, t := range strings.Split(toks[1], ",") {
+			i, err := strconv.Atoi(t)
+			if err != nil || i < 0 || i >= len(w.m.polls) {
+				continue
+			}
+			dp, _ := w.m.polls[i].(*defaultPoll)
+			if h := vmgrHoldLoop(dp); h != nil {
+				w.holds = append(w.holds, h)
+				dp.Trigger()
+			}
+		}
+		inner, r := w.exec(toks[2:], rng)
+		w.releaseHolds()
+		return "pend " + toks[1] + " " + inner, r
 	case "scn":
 		w.cleanup()
 		*w = vmgrWorld{closed: map[int]bool{}, waited: map[int]bool{}}
@@ -942,7 +1046,25 @@ func vmgrGenSeq(w *vmgrWorld, out *vmgrOut, rng *rand.Rand, nops int) {
 				n = 0
 			}
 			do("setn %d", n)
-			if rng.Intn(3) == 0 && w.m != nil {
+			if rng.Intn(3) == 0 && w.m != nil && len(w.m.polls) > 0 {
+				// the reconfiguring Pick (or a Reset) arrives while some loops - usually all - are busy in a callback with a
+				// Trigger() not yet consumed: the Close of a surplus poller then coalesces with it on the eventfd counter
+				var ss []string
+				all := rng.Intn(2) == 0
+				for j := range w.m.polls {
+					if all || rng.Intn(2) == 0 {
+						ss = append(ss, strconv.Itoa(j))
+					}
+				}
+				if len(ss) == 0 {
+					ss = []string{strconv.Itoa(len(w.m.polls) - 1)}
+				}
+				if rng.Intn(6) == 0 {
+					do("pend %s reset", strings.Join(ss, ","))
+				} else {
+					do("pend %s pick", strings.Join(ss, ","))
+				}
+			} else if rng.Intn(3) == 0 && w.m != nil {
 				// multi-step reconfiguration without a Pick in between, ending at the size that is running now
 				if rng.Intn(2) == 0 {
 					do("setn %d", 1+rng.Intn(6))
@@ -964,7 +1086,11 @@ func vmgrGenSeq(w *vmgrWorld, out *vmgrOut, rng *rand.Rand, nops int) {
 			do("reset")
 		case x < 97:
 			if i > nops*2/3 {
-				do("close")
+				if rng.Intn(2) == 0 && w.m != nil && len(w.m.polls) > 0 {
+					do("pend %d close", rng.Intn(len(w.m.polls)))
+				} else {
+					do("close")
+				}
 				closedAt = i
 			}
 		default:
@@ -1164,7 +1290,7 @@ func vmgrReplay(path string, out *vmgrOut) int {
 			out.emit(line, line)
 		default:
 			op, rep := w.exec(toks, rng)
-			if toks[0] == "pick" || toks[0] == "cphase" || toks[0] == "iphase" {
+			if toks[0] == "pick" || toks[0] == "cphase" || toks[0] == "iphase" || toks[0] == "pend" {
 				// keep the recorded line (the random indices are re-observed)
 				out.emit(op, rep)
 			} else {
